@@ -101,7 +101,7 @@ PROPS = {
             {"name": "cache_histories", "bin": "replay_c16", "crate": "replay", "tiers": ("quick", "thorough"),
              "bound": "the real public TinyLFU, single-threaded, Piggyback maintenance, both unpin strategies: 60 seeded random histories of 1500 operations at capacities 1..8, 12 seeded random phase histories at capacities 96/160 (above the maintenance slack, so the bound is not vacuous), directed histories (empty probation at unpin, re-pin before a stale unpin, long-lived pin, popular newcomers against pinned victims, parked entries replaced within one maintenance batch at capacities 100/200); after every phase: pinned entries readable with their latest value, removed entries gone, residents <= capacity + pinned + 74"},
             {"name": "lock_table_same_lock", "bin": "replay_c16_locks", "crate": "replay", "tiers": ("quick", "thorough"),
-             "bound": "the REAL query_lock_manager.rs (compiled into the driver with include!; QueryID replaced by a local key type): 24 seeded histories of 400 steps at table capacities 1/2/8/32: tasks take lock instances of 6 queries (locked or not yet locked), release them, lock later; 50..450 other queries at a time push the table over capacity; whenever a task holds an instance of q every get_lock_instance(q) must return the same lock object (single-threaded)"},
+             "bound": "the REAL query_lock_manager.rs (compiled into the driver with include!; QueryID replaced by a local key type): 16 seeded histories of 1600 steps at table capacities 1/2/8/32: tasks take lock instances of a rolling window of ~400 queries (locked or not yet locked), release them, lock later; 50..450 other queries at a time push the table over capacity; whenever a task holds an instance of q every get_lock_instance(q) must return the same lock object, and once nothing is held the table holds at most capacity + 74 locks (single-threaded)"},
             {"name": "lru_conformance_depth4", "repo_crate": "storage", "package": "qbice_storage", "test": "verif_lru_conformance", "env": {"VERIF_LRU_DEPTH": 4},
              "ok_re": r"VERIF-LRU-CONFORMANCE ok sequences=(\d+)", "bad_re": r"VERIF-LRU-CONFORMANCE VIOLATION.*", "tiers": ("thorough",), "timeout": 3600,
              "bound": "ALL sequences of <= 4 Lru operations (218,629,862 sequences; about 6 minutes): every clause of the abstract Lru contract on the real Lru"},
@@ -131,7 +131,7 @@ PROPS = {
             {"name": "store_equals_batches_in_creation_order", "bin": "replay_c10", "crate": "replay", "tiers": ("quick", "thorough"),
              "bound": "24 directed late-first histories + 4 directed drop-during-panic-unwinding histories + 400 seeded random histories: 1..9 batches of 0..5 operations (wide-column put/delete and key-of-set insert/remove over 1..3 keys x 1..3 elements, so that one batch often stages several operations on one slot), submitted out of creation order from 1..3 threads, 1..4 serializer workers, random serialization delays and physical grouping; after drop the recording store must equal applying the batches in creation order, each exactly once (real code, native execution, thread schedule not controlled)"},
             {"name": "real_backends_behind_the_real_write_manager", "bin": "replay_c10_db", "crate": "replay_db", "release": False, "tiers": ("quick", "thorough"), "thorough_seeds": 6,
-             "bound": "the real WriteBehind in front of the REAL RocksDB and Fjall: 9 manager lifetimes per store and seed (mixed traffic, lifetimes that ONLY remove, a unit-keyed unit-discriminant column whose encoded key is empty), 1..3 serializer workers; after every lifetime the store is closed, reopened and read through a fresh engine: it must hold exactly the batches applied in creation order"},
+             "bound": "the real WriteBehind in front of the REAL RocksDB and Fjall: 11 manager lifetimes per store and seed (mixed traffic, lifetimes that ONLY remove, put-then-remove of a never-stored key across batches of one lifetime, a unit-keyed unit-discriminant column whose encoded key is empty), 1..3 serializer workers; after every lifetime the store is closed, reopened and read through a fresh engine: it must hold exactly the batches applied in creation order"},
         ],
         "witness": witness.c10,
         "assumptions": [
